@@ -51,6 +51,16 @@ func c07Check(dec config.DecoderType, file string, want []c07Entry, passes int) 
 				got, _ = io.ReadAll(req.Body)
 			}
 			vCheck("F2.body.bytes", string(got) == w.body)
+			// the same decoded entry is built again on every later pass of a preloading provider
+			req2, berr2 := a.BuildRequest()
+			vCheck("F2.rebuild.ok", berr2 == nil)
+			if berr2 == nil {
+				var got2 []byte
+				if req2.Body != nil {
+					got2, _ = io.ReadAll(req2.Body)
+				}
+				vCheck("F2.body.bytes.on.rebuild", string(got2) == w.body)
+			}
 		} else {
 			vCheck("F2.method.get", req.Method == "GET")
 		}
